@@ -91,6 +91,9 @@ def _content(x):
     import jax
     import numpy as np
 
+    if isinstance(x, jax.core.Tracer):
+        # a traced value left behind in an argument by a compiled call: the argument was modified
+        return ("leaked-tracer", str(getattr(x, "aval", "?")))
     if isinstance(x, (jax.Array, np.ndarray, np.generic)):
         a = np.asarray(x)
         return ("arr", str(a.dtype), tuple(a.shape), hashlib.sha1(a.tobytes()).hexdigest())
